@@ -22,7 +22,10 @@ un-translatable obligation):
     lines, `x.f = e`, `return x`: the object is the tuple of its fields in __init__ order.
   * `int(math.ceil(a / b))` with integer a, b: ceiling division -((-a) // b), None unless b > 0 (float true
     division of ints is correctly rounded, so the float ceiling is the exact one for |a| < 2^53).
-  * `C(e1, .., en)` for a class named in the spec's "tuples" ({"Shape4D": 4}): the tuple of its arguments.
+  * `C(e1, .., en)` for a class named in the spec's "tuples" ({"Shape4D": 4}): the tuple of its arguments;
+    `C([e1, .., en])` with an n-element list literal likewise.
+  * `x = bytearray(<literal n>)` (n zero bytes) and `x[<literal k>] = e` on it (None = IndexError, or ValueError when
+    e is not a byte); `assert isinstance(param, int | np.intN)` on an integer parameter is a no-op.
 Semantics: Python ints are Z; // and % are Z.div / Z.modulo (floor; same sign convention).
 """
 import ast
@@ -322,6 +325,13 @@ class Fn:
                 v = self.fresh("c")
                 pre.append((v, "(if Z.gtb %s 0 then Some (Z.opp (Z.div (Z.opp %s) %s)) else None)" % (b, a, b)))
                 return v, "Z"
+        if (f in self.spec.get("tuples", {}) and len(e.args) == 1 and isinstance(e.args[0], ast.List)
+                and len(e.args[0].elts) == self.spec["tuples"][f]):
+            # `C([e1, .., en])` (C10: Shape4D built from a 4-element list literal): the tuple of the elements
+            elts = [self.expr(a, env, pre) for a in e.args[0].elts]
+            for a in elts:
+                self.need(a[1], "Z", e)
+            return "(" + ", ".join(a[0] for a in elts) + ")", tuple("Z" for _ in elts)
         args = [self.expr(a, env, pre) for a in e.args]
         if f in self.spec.get("tuples", {}) and len(args) == self.spec["tuples"][f]:
             for a in args:
@@ -430,6 +440,13 @@ class Fn:
                     and isinstance(t.comparators[0], ast.Constant) and t.comparators[0].value is None
                     and isinstance(t.left, ast.Name) and t.left.id in env):
                 return nxt(env)  # `assert param is not None`: parameters of the model are never None
+            if (isinstance(t, ast.Call) and isinstance(t.func, ast.Name) and t.func.id == "isinstance" and not t.keywords
+                    and len(t.args) == 2 and isinstance(t.args[0], ast.Name) and t.args[0].id in env
+                    and env[t.args[0].id][1] == "Z" and t.args[0].id in self.pos_params
+                    and isinstance(t.args[1], (ast.Name, ast.Attribute))
+                    and self.dotted(t.args[1]) in ("int", "np.int8", "np.int16", "np.int32", "np.int64")):
+                # `assert isinstance(param, <integer type>)`: the model's parameters are integers (Z) by construction
+                return nxt(env)
             pre = []
             c = self.cond(s.test, env, pre)
             self.partial_used = True
@@ -499,6 +516,35 @@ class Fn:
             env2 = dict(env)
             env2[target.id] = ({f: zlit(v) for f, v in self.tr.object_classes[value.func.id]}, ("obj", value.func.id))
             return nxt(env2)
+        if (isinstance(target, ast.Name) and isinstance(value, ast.Call) and isinstance(value.func, ast.Name)
+                and value.func.id == "bytearray" and not value.keywords and len(value.args) == 1
+                and isinstance(value.args[0], ast.Constant) and isinstance(value.args[0].value, int)
+                and not isinstance(value.args[0].value, bool) and 0 <= value.args[0].value <= 4096):
+            # `x = bytearray(<literal n>)`: n zero bytes; later stores `x[k] = e` are byte-range checked
+            v = self.fresh(target.id)
+            env2 = dict(env)
+            env2[target.id] = (v, "list")
+            self.bytearrays = getattr(self, "bytearrays", set()) | {target.id}
+            return "let %s := (repeat 0 (Z.to_nat %d)) in %s" % (v, value.args[0].value, nxt(env2))
+        if (isinstance(target, ast.Subscript) and isinstance(target.value, ast.Name) and target.value.id in env
+                and env[target.value.id][1] == "list" and isinstance(target.slice, ast.Constant)
+                and isinstance(target.slice.value, int) and not isinstance(target.slice.value, bool)
+                and 0 <= target.slice.value <= 4096):
+            # `x[<literal k>] = e` on a list: IndexError when k >= len(x); on a bytearray also ValueError unless
+            # 0 <= e < 256.  Both are the error result None.
+            t, ty = self.expr(value, env, pre)
+            self.need(ty, "Z", target)
+            lst, k = target.value.id, target.slice.value
+            old = env[lst][0]
+            v = self.fresh(lst)
+            env2 = dict(env)
+            env2[lst] = (v, "list")
+            guard = "(Z.ltb %d (Z.of_nat (List.length %s)))" % (k, old)
+            if lst in getattr(self, "bytearrays", set()):
+                guard = "(andb (andb (Z.leb 0 %s) (Z.ltb %s 256)) %s)" % (t, t, guard)
+            self.partial_used = True
+            return self.wrap(pre, "if %s then let %s := (firstn (Z.to_nat %d) %s ++ %s :: skipn (Z.to_nat %d) %s) in %s else None"
+                             % (guard, v, k, old, t, k + 1, old, nxt(env2)))
         t, ty = self.expr(value, env, pre)
         env2 = dict(env)
         if (isinstance(target, ast.Attribute) and isinstance(target.value, ast.Name) and target.value.id in env
